@@ -29,8 +29,21 @@ type C19Case struct {
 const c19MaxK = 64
 
 func genC19(t *rapid.T) any {
-	kind := rapid.SampledFrom([]string{"fn", "fn", "fn", "fn", "type", "raise", "selector", "aggdata"}).Draw(t, "kind")
+	kind := rapid.SampledFrom([]string{"fn", "fn", "fn", "fn", "type", "raise", "selector", "aggdata", "orderkey"}).Draw(t, "kind")
 	c := &C19Case{Kind: kind}
+	if kind == "orderkey" {
+		// a sort key that cannot be read on the rows being sorted (index beyond a nested array, a path through a
+		// scalar, a malformed bracket): reading it in the select list fails, so sorting by it fails as well
+		doc, sc := genC07Doc(t)
+		c.W = &WideQ{Doc: doc, Construct: "orderkey"}
+		bad := rapid.SampledFrom([]string{"`" + sc.items + "[5]." + sc.p + "`", "`" + sc.k + ".x`", "`" + sc.s + "[0]`", "`" + sc.items + "[(2:9)]`", "`nokey[(1:x)]`", "`" + sc.items + "[each,0]`"}).Draw(t, "ok.key")
+		dir := rapid.SampledFrom([]string{"", " DESC", " ASC"}).Draw(t, "ok.dir")
+		tail := rapid.SampledFrom([]string{"", ", " + sc.k, " LIMIT 1", ", " + sc.k + " DESC LIMIT 2 OFFSET 1"}).Draw(t, "ok.tail")
+		q := "SELECT * FROM t ORDER BY " + bad + dir + tail
+		c.RaiseSQL = rapid.SampledFrom([]string{q, q, "SELECT * FROM (" + q + ") x", "WITH c AS (" + q + ") SELECT * FROM c", "SELECT " + sc.k + ", (SELECT * FROM `<-t` ORDER BY " + bad + ") AS sb FROM t"}).Draw(t, "ok.form")
+		c.RaiseProb = "SELECT " + bad + " AS z FROM t"
+		return c
+	}
 	if kind == "aggdata" {
 		// a type error that sits in the data: a numeric column holds, in one row, a value SUM / AVG cannot add up
 		n := rapid.IntRange(1, 7).Draw(t, "ad.rows")
@@ -160,6 +173,9 @@ func checkC19(c *C19Case) Result {
 	}
 	if c.Kind == "raise" {
 		return checkC19Raise(c)
+	}
+	if c.Kind == "orderkey" {
+		return checkC19OrderKey(c)
 	}
 	if c.Kind == "aggdata" {
 		return checkC19AggData(c)
@@ -505,6 +521,48 @@ func init() {
 
 // checkC19AggData: SUM / AVG over a column that holds one value they cannot add up (a string, a boolean, an
 // object, an array) must fail - wherever that value sits among the rows - and succeed when WHERE excludes the row.
+func checkC19OrderKey(c *C19Case) Result {
+	res := Result{Labels: []string{"construct:orderkey", "kind:orderkey"}}
+	rows, _ := c.W.Doc["t"].([]any)
+	if len(rows) < 2 {
+		res.Discard = "fewer than two rows: nothing is compared"
+		return res
+	}
+	probe := Run(val.CopyMap(c.W.Doc), c.RaiseProb, Opts{})
+	res.Execs++
+	if probe.OK() || probe.Panic != "" {
+		res.Discard = "the engine reads this key on every row of this document"
+		return res
+	}
+	res.NonTrivial = true
+	ctx := fmt.Sprintf("%s over %s", c.RaiseSQL, truncate(val.JSON(c.W.Doc["t"]), 600))
+	for i := 0; i < 2; i++ {
+		doc := val.CopyMap(c.W.Doc)
+		out := Run(doc, c.RaiseSQL, Opts{})
+		res.Execs++
+		if out.Panic != "" {
+			res.Violation = ctx + "\n  panic escaped: " + out.Panic
+			return res
+		}
+		if out.OK() {
+			res.Violation = fmt.Sprintf("%s\n  the sort key cannot be read (%s -> %s), but Exec returned %s", ctx, c.RaiseProb, probe.Describe(), val.JSON(out.Rows))
+			return res
+		}
+		if out.ErrRows > 0 {
+			res.Violation = fmt.Sprintf("%s\n  returned an error together with %d rows", ctx, out.ErrRows)
+			return res
+		}
+		after := Run(doc, "SELECT * FROM t", Opts{})
+		pristine := Run(val.CopyMap(c.W.Doc), "SELECT * FROM t", Opts{})
+		res.Execs += 2
+		if !sameOut(after, pristine, false) {
+			res.Violation = fmt.Sprintf("%s\n  after this failure SELECT * FROM t on the same input returns %s, on a pristine copy %s", ctx, after.Describe(), pristine.Describe())
+			return res
+		}
+	}
+	return res
+}
+
 func checkC19AggData(c *C19Case) Result {
 	res := Result{Labels: []string{"construct:aggdata", "kind:aggdata"}}
 	doc := val.CopyMap(c.W.Doc)
